@@ -1,6 +1,6 @@
 """C09 - escaped text is inert."""
 from facts import walk, callee_of, call_args, loc
-import hirq, anchors, absx, unesc
+import hirq, anchors, absx, unesc, fmtargs
 
 EXPLANATION = ("The escape functions are transducers over the items of their input; their loop bodies are abstractly evaluated on literals for every item "
                "- each of the 256 octet values when the loop walks the input by octets (bytes(), as_bytes().iter()); each of the 128 ASCII characters, and the "
@@ -10,7 +10,11 @@ EXPLANATION = ("The escape functions are transducers over the items of their inp
                "input length as literals).  What is judged is *the octets that reach the output*, whatever container collects them: a Vec<u8> and a String are both "
                "an octet buffer with reference semantics - Vec::push(b) appends b, String::push(ch) appends the UTF-8 encoding of ch (one octet for ch < U+0080, "
                "for `b as char` / char::from(b) with b >= 0x80 the two octets c2/c3 .., not b), push_str / extend / extend_from_slice append the octets of their argument, "
-               "String::from_utf8 keeps them.  Per item the output must grow by the escape sequence `\\`, hex(c>>4), hex(c&15) (a lazy output first becoming input[..i]) or by "
+               "String::from_utf8 keeps them; `write!(buf, ..)` (io::Write for Vec<u8>, fmt::Write for String) appends, and `format!(..)` is a new String of, the text the format "
+               "string denotes for the literal item - computed by an exact model of std::fmt (rules/fmtargs.py: the template of literal pieces and placeholders as the "
+               "compiler lowers it, with fill / alignment / width / precision / `+` `#` `0` and the traits Display, x, X, o, b, Debug of integers, Display of str / char / bool; "
+               "anything else is a write without a model).  Per item the output must grow by the escape sequence `\\`, hex(c>>4), hex(c&15) - the digits in either case: RFC 4515 "
+               "and RFC 4514 `HEX` read both, as does the shared unescaper (E5) - (a lazy output first becoming input[..i]) or by "
                "the very octets of the input the item stands for (E3.copied-octets-unchanged: an unescaped octet >= 0x80 must not be re-encoded; a non-ASCII character is "
                "copied whole, never escaped): E1 ldap_escape escapes exactly {\\ * ( ) NUL} = complement of the filter lexer's value class "
                "(extracted from filter.rs) plus the unescaper's trigger byte; E2 dn_escape always escapes a superset of RFC 4514's specials "
@@ -25,7 +29,8 @@ EXPLANATION = ("The escape functions are transducers over the items of their inp
                "'started' (Option, flag, emptiness of the buffer) is never read, only what it stores, copies, appends and finally returns "
                "from each reachable state: the input itself when no escape was seen, the collected output (or the UTF-8 error) when the "
                "run ends in Value, an error otherwise. Not decided: an RFC 4514 parser (there is none in the repository); round trip taken whole.")
-TRUSTED = ['String::from_utf8 / Cow semantics', 'the for loop visits the bytes in order (std enumerate); chars() / char_indices() visit the characters of a str in order, each with the offset of its first octet', 'String::push / push_str append the UTF-8 encoding of their argument']
+TRUSTED = ['String::from_utf8 / Cow semantics', 'the for loop visits the bytes in order (std enumerate); chars() / char_indices() visit the characters of a str in order, each with the offset of its first octet', 'String::push / push_str append the UTF-8 encoding of their argument',
+           'std::fmt as modelled in rules/fmtargs.py (read from library/core/src/fmt and the compiler\'s format_args lowering; compared once, while the model was written, with what std prints for 82 format strings over all u8 / i8 values and samples of the other types)']
 UNDECIDED = ['the RFC 4514 parser side (none in the repository)', 'round-trip equality of whole strings (the per-byte transducer is decided)']
 ASSUMPTIONS = []
 SHARED = [('C08', ('P1.entry',), 'E6.filter-compiler-reads-the-whole-input')]      # the escaped value is embedded in a filter string: the compiler must read that string as given, to its last octet
@@ -152,6 +157,7 @@ NONEMPTY = ('old', 'nonempty')
 EARLIER = ('old', 'earlier')        # whatever the earlier iterations have appended (possibly nothing)
 BUF_NO_EFFECT = ('reserve', 'reserve_exact', 'shrink_to_fit', 'shrink_to')
 BUF_READS = ('capacity', 'as_slice', 'first', 'last', 'get', 'contains', 'starts_with', 'ends_with', 'iter', 'chars', 'char_indices', 'bytes')
+FMT_SINKS = ('std::io::Write::write_fmt', 'core::fmt::Write::write_fmt')
 NEW_BUF = ('alloc::vec::Vec::<T>::new', 'alloc::vec::Vec::<T>::with_capacity', 'alloc::string::String::new', 'alloc::string::String::with_capacity')
 
 def is_buf(t):
@@ -221,10 +227,15 @@ def buf_summary(I, cal, args, node, st):
     nothing observable; is_empty / len (both count octets, for a String too) are answered from the content when it is known.  Any
     other call that receives the buffer is recorded as 'buf-unmodelled' (the rules fail closed on it)."""
     name = cal.rsplit('::', 1)[-1]
+    if cal == 'core::hint::must_use' and len(args) == 1:
+        return [absx.Out('val', args[0], st)]          # the identity (`format!` wraps its result in it)
     if not args or not is_buf(args[0]):
         ty = hirq.strip_refs(node.get('ty') or '')
         if ty in T_EAGER and any(cal.endswith(x) for x in NEW_BUF):
             return [new_buf(st, ())]
+        if ty == STR_TY and cal == fmtargs.FORMAT and len(args) == 1 and fmtargs.text_of(args[0]) is not None:
+            # format!(..): "creates a String using interpolation of runtime expressions" - a new buffer holding the formatted text
+            return [new_buf(st, tuple(('lit', b) for b in fmtargs.text_of(args[0])))]
         if ty in T_EAGER and len(args) == 1 and hirq.is_transparent(cal) and not absx.leaves(args[0], is_buf):
             from_char = node.get('k') == 'MethodCall' and hirq.strip_refs(node['recv'].get('ty') or '') == 'char'
             return [new_buf(st, char_octets(args[0]) if from_char else ext_items(args[0]))]
@@ -245,6 +256,16 @@ def buf_summary(I, cal, args, node, st):
     if name == 'extend' and string and len(args) == 2 and args[1][0] == 'array':
         # String: Extend<char>: the characters of the array, in order, each appended like push
         return [absx.Out('val', absx.UNIT, set_heap(st, key, cur + ext_items(args[1], chars=True)).event(('buf-write', 'extend', args[1], node)))]
+    if cal in FMT_SINKS and len(args) == 2:
+        # write!(buf, ..) = buf.write_fmt(format_args!(..)).  Both sinks append exactly the formatted text and answer Ok(()): io::Write for
+        # Vec<u8> ("write ... appending to the vector", never fails; the provided write_fmt hands every piece to write_all and fails only
+        # if that does or a formatting trait does - those modelled in fmtargs do not); fmt::Write for String (write_str = push_str, never
+        # fails).  A text that fmtargs cannot read (an argument that is not a literal, a trait it has no model of) is a write without a model.
+        text = fmtargs.text_of(args[1])
+        # (which of the two the buffer is needs no test: of the buffer types only Vec<u8> implements io::Write, only String fmt::Write)
+        if text is not None:
+            return [absx.Out('val', ('ctor', 'Ok', (absx.UNIT,)), set_heap(st, key, cur + tuple(('lit', b) for b in text)).event(('buf-write', 'extend', args[1], node)))]
+        return [absx.Out('val', ('call', cal, tuple(args), node.get('id')), st.event(('buf-unmodelled', cal, node)))]
     if name == 'clear' and len(args) == 1:
         return [absx.Out('val', absx.UNIT, set_heap(st, key, ()).event(('buf-write', 'clear', None, node)))]
     if name in BUF_NO_EFFECT:
@@ -497,7 +518,7 @@ class Escaper:
                     and len(args) == 2 and args[1][0] in ('closure', 'fn'):
                 searches.append({'name': cal.rsplit('::', 1)[-1], 'src': args[0], 'pred': args[1], 'node': node, 'st': st, 'I': I})
             return None
-        summaries = [recorder] + ([self.length_summary(pos[1])] if pos is not None else []) + [buf_summary, char_model]
+        summaries = [recorder] + ([self.length_summary(pos[1])] if pos is not None else []) + [buf_summary, char_model, fmtargs.summary]
         I = BufInterp(self.f, self.B, inline=self.inline, combinators=True, summaries=summaries, domain=CharOrder())
         I.stop_at, I.mode = self.loop, 'upto'
         env = {b: (INPUT if v[0] == 'param' else v) for b, v in I.param_env().items()}
@@ -662,6 +683,49 @@ def post_loop(B, loop):
 def escape_octets(c):
     return (('lit', 0x5c), ('lit', HEXCH[c >> 4]), ('lit', HEXCH[c & 15]))
 
+def octet_lits(items):
+    """the octets of a run of items if each is a literal octet, else None"""
+    return tuple(x[1] for x in items) if all(x[0] == 'lit' and isinstance(x[1], int) and not isinstance(x[1], bool) for x in items) else None
+
+def is_escape_of(c, items):
+    """the items are the escape sequence of the octet c: a backslash and the two hex digits of c, high one first.  The case of a digit
+    is free: RFC 4515 (`HEX`) and RFC 4514 (`hexpair = HEX HEX`, HEX = DIGIT / "A"-"F" / "a"-"f") read both, and so does the shared
+    unescaper (decided by E5.unescaper-automaton against the automaton that reads both) - `\\2A` and `\\2a` are the same escaped octet."""
+    o = octet_lits(items)
+    return o is not None and len(o) == 3 and o[0] == 0x5c and o[1] in unesc.HEX and o[2] in unesc.HEX and unesc.HEX[o[1]] == c >> 4 and unesc.HEX[o[2]] == c & 15
+
+def hexs(octets):
+    return ' '.join('%02x' % b for b in octets)
+
+def diagnose_escape(c, got):
+    """what is wrong with the octets `got` written as the escape of the octet c (they are not is_escape_of)"""
+    hv = unesc.HEX
+    if len(got) == 3 and got[0] == 0x5c and got[1] == 0x20 and c >> 4 == 0 and hv.get(got[2]) == c & 15:
+        return 'with a space where the high hex digit 0 belongs (backslash + space is no hex pair: a reader does not get the octet back - an RFC 4514 parser reads an escaped space and then the low digit as a character, the filter unescaper rejects the text)'
+    if len(got) == 2 and got[0] == 0x5c and c >> 4 == 0 and hv.get(got[1]) == c & 15:
+        return 'with one hex digit instead of two (the reader takes the next octet of the text for the second digit)'
+    if len(got) == 3 and got[0] == 0x5c and hv.get(got[1]) == c & 15 and hv.get(got[2]) == c >> 4:
+        return 'with its two hex digits in the wrong order'
+    if len(got) >= 2 and got[0] == 0x5c and all(0x30 <= b <= 0x39 for b in got[1:]) and int(bytes(got[1:])) == c:
+        return 'with the decimal digits of its value, not the two hexadecimal ones'
+    return 'with something other than backslash + the two hex digits of its value'
+
+def describe_malformed(malformed, escaped):
+    """malformed: {octet: set of the octet runs written as its escape}; escaped: every octet the loop escapes somewhere"""
+    groups = {}
+    for c, gots in malformed.items():
+        for got in gots:
+            groups.setdefault(diagnose_escape(c, got), []).append((c, got))
+    out = []
+    for why, items in sorted(groups.items(), key=lambda kv: min(kv[1])):
+        cs = sorted({c for c, _g in items})
+        low = {c for c in escaped if c < 0x10}
+        who = 'every escaped octet' if set(cs) == set(escaped) else 'every escaped octet below 0x10' if set(cs) == low else 'of the escaped octets, these'
+        c, got = min(items)
+        out.append('%s (%s) %s written %s: `%02x` becomes `%s`, must be `%s`' % (who, ', '.join('0x%02x' % x for x in cs[:12]) + (', ..' if len(cs) > 12 else ''),
+                                                                                'are' if who.endswith('these') else 'is', why, c, hexs(got), hexs(x[1] for x in escape_octets(c))))
+    return out
+
 def simple_value(v):
     return v[0] == 'lit' or v == absx.UNIT or (v[0] == 'ctor' and all(simple_value(x) for x in v[2]))
 
@@ -707,6 +771,7 @@ def transducer(ctx, E, name, roles=(None,)):
     lazy = E.acc[1] in T_LAZY
     unit = E.walk[3]
     reenc = {}
+    malformed = {}
     for cls in classes_of(unit):
       L = class_len(cls)
       who = class_name(cls, unit)
@@ -727,7 +792,9 @@ def transducer(ctx, E, name, roles=(None,)):
                 if isinstance(content, str):
                     wrong.append((ctxt, content)); continue
                 esc = escape_octets(cls) if isinstance(cls, int) else None
-                if content is not None and esc is not None and content == canon(((('pre', idx),) if lazy and not started else ()) + esc):
+                # what precedes the escape: a lazy output is first set to input[..i] (nothing, for the first item)
+                pref = canon((('pre', idx),) if lazy and not started else ())
+                if content is not None and esc is not None and content[:len(pref)] == pref and is_escape_of(cls, content[len(pref):]):
                     table.setdefault(cls, set()).add(('escape', role))
                     if lazy and not started and not E.indexed:
                         wrong.append((ctxt, 'the prefix is copied although the loop does not number its items'))
@@ -738,12 +805,19 @@ def transducer(ctx, E, name, roles=(None,)):
                         if not any(w[0] == ctxt for w in wrong):        # (one report per context: the forks over what is not known of the character differ only in the digits)
                             wrong.append((ctxt, 'a non-ASCII character is replaced by an escape sequence: the output grows by %s' % describe_content(content)))
                     else:
+                        # the decision to escape is taken (the sets of E1 / E2 are about the decision); what is written is wrong
+                        table.setdefault(cls, set()).add(('escape', role))
+                        got = octet_lits(content[len(pref):]) if content[:len(pref)] == pref else None
+                        if got is not None:
+                            # the right prefix, then literal octets that are not the escape sequence: reported once per octet, below
+                            malformed.setdefault(cls, set()).add(got)
+                            continue
                         why = ''
-                        if lazy and not started and content[-3:] == esc:
+                        if lazy and not started and is_escape_of(cls, content[-3:]):
                             why = ' - the prefix must be input[..%s], copied once, when the output is started' % absx.fmt(idx)
-                        elif content[-3:] == esc:
+                        elif is_escape_of(cls, content[-3:]):
                             why = ' - the unescaped prefix is copied again'
-                        wrong.append((ctxt, 'escaped as %s, must be %s%s' % (describe_content(content), describe_content(canon(((('pre', idx),) if lazy and not started else ()) + esc)), why)))
+                        wrong.append((ctxt, 'escaped as %s, must be %s%s' % (describe_content(content), describe_content(pref + esc), why)))
                     continue
                 # the copy path
                 table.setdefault(cls, set()).add(('plain', role))
@@ -762,6 +836,9 @@ def transducer(ctx, E, name, roles=(None,)):
         copies.insert(0, ('%s copied through the unescaped path' % ('every byte >= 0x80' if len(reenc) == 128 else 'the bytes %s' % ['0x%02x' % c for c in sorted(reenc)][:8]),
                           'such a byte is one octet of a multi-octet character and must reach the output as it is, but it is re-encoded as the code point U+00NN of its '
                           'value (`b as char` / char::from(b) is Latin-1, not UTF-8) and reaches the output as two octets: 0x%02x becomes %s' % (ex, ' '.join('%02x' % b for b in reenc[ex]))))
+    if malformed:
+        escaped = {c for c, ds in table.items() if isinstance(c, int) and any(d == 'escape' for d, _r in ds)}
+        wrong[:0] = [('an escaped octet must be written as backslash + its two hex digits, but ' + m,) for m in describe_malformed(malformed, escaped)]
     wrong.extend((w,) for w in E.before_loop())
     if E.two_phase and not wrong:
         # the bytes before `start` are copied as they are: the search that found `start` must not pass over a byte the loop would escape
@@ -947,7 +1024,7 @@ class Unescape:
     def __init__(self, f, UE, esc):
         self.f, self.UE, self.U, self.esc = f, UE, UE.B, esc
         self.accb = self.accty = None
-        self.I = BufInterp(f, self.U, summaries=[buf_summary, unesc.feed_summary(f), unesc.char_summary],
+        self.I = BufInterp(f, self.U, summaries=[buf_summary, unesc.feed_summary(f), unesc.char_summary, fmtargs.summary],
                            inline=lambda cal: cal == unesc.FEED or cal.startswith('ldap3::util::'), combinators=True)
         self.I.stop_at = UE.loop
         self.n_eval = 0
